@@ -191,7 +191,7 @@ fn gen_tree(dna: &[u8], depth: usize) -> (Option<Vec<(String, Meta)>>, Comp) {
 	(t, comp)
 }
 
-const FIXED: usize = 21;
+const FIXED: usize = 23;
 fn fixed(i: usize) -> Option<Vec<(String, Meta)>> {
 	let s = |x: &str| Meta::Str(x.to_string());
 	match i {
@@ -209,6 +209,9 @@ fn fixed(i: usize) -> Option<Vec<(String, Meta)>> {
 		17 => Some(crate::gen::bulky_metadata(300, 2)),
 		// > 1 MiB of metadata (as UBJSON and as JSON)
 		18 => Some(crate::gen::bulky_metadata(5200, 3)),
+		// past 8 MiB and past 16 MiB (round 12: a "defensive" size cap on the .slpp side)
+		21 => Some(crate::gen::bulky_metadata(24_000, 4)),
+		22 => Some(crate::gen::bulky_metadata(50_000, 5)),
 		19 => Some(vec![("$serde_json::private::RawValue".into(), s("[1,2]")), ("x".into(), Meta::Int(1))]),
 		20 => Some(vec![("wrap".into(), Meta::Map(vec![("$serde_json::private::Number".into(), s("123"))]))]),
 		11 => Some((0..6).map(|a| (format!("a{}", a), Meta::Map((0..6).map(|b| (format!("b{}", b), Meta::Map((0..6).map(|c| (format!("c{}", c), Meta::Map(vec![("v".into(), Meta::Int(a * 36 + b * 6 + c))]))).collect()))).collect()))).collect()),
